@@ -66,7 +66,8 @@ pub fn buildings(r: &mut Rng, n: usize, findings: &mut Vec<Value>) -> Value {
             a.push(("MULTIPLIER".into(), m.clone()));
         }
         o.block(r, "P01", "FLOOR", &mut a);
-        let nv = 3 + r.below(4);
+        // up to 14 vertices: V10.. sort before V2 in the attribute map
+        let nv = 3 + r.below(12);
         let verts: Vec<(String, String)> = (0..nv).map(|_| (finite_num(r), finite_num(r))).collect();
         o.text.push_str("\"P01_E01_Pol\" = POLYGON\n");
         for (i, (x, y)) in verts.iter().enumerate() {
